@@ -1429,6 +1429,85 @@ def run_tolinen_hooked(ctx, i, rng):
     ctx.check(close(got_n, ref.n.value), 'tolinen.hooked:state_after', lambda: dict(case=desc, got=float(got_n), want=float(ref.n.value)))
 
 
+def run_tolinen_lifted_sharding(ctx, i, rng):
+  """ToLinen under nn.vmap with metadata_params={PARTITION_NAME: ...}: the stacked variables carry the new axis in their
+  sharding names, as the same construction around nn.Dense does (the control). Own mechanism - see known finding
+  C18-nnxmeta-add-axis-noop."""
+  import jax
+  import jax.numpy as jnp
+  import flax.linen as nn
+  from flax import nnx
+  from flax.core import FrozenDict
+  from flax.nnx import bridge
+  axis = i % 2
+  n = 2 + (i // 2) % 2
+  desc = dict(stack_axis=axis, lanes=n)
+  with ctx.case('tolinen.lifted_sharding', i, desc, nontrivial=True):
+    kw = dict(variable_axes={'params': axis, 'nnx': None}, split_rngs={'params': True}, metadata_params={nn.PARTITION_NAME: 'layers'})
+
+    class PB(nn.Module):
+      @nn.compact
+      def __call__(self, x):
+        V = nn.vmap(bridge.ToLinen, **kw)
+        return V(nnx.Linear, args=(4, 3), kwargs=FrozenDict(kernel_init=nnx.with_partitioning(nnx.initializers.lecun_normal(), ('in', 'out'))), name='lin')(x)
+
+    class PL(nn.Module):
+      @nn.compact
+      def __call__(self, x):
+        V = nn.vmap(nn.Dense, **dict(kw, variable_axes={'params': axis}))
+        return V(3, kernel_init=nn.with_partitioning(nn.initializers.lecun_normal(), ('in', 'out')), name='lin')(x)
+
+    x = jnp.ones((n, 4))
+    want_names = ('layers', 'in', 'out') if axis == 0 else ('in', 'layers', 'out')
+    vl = PL().init(jax.random.key(i), x)
+    spec_l = nn.get_partition_spec(vl)['params']['lin']['kernel']
+    ctx.check(tuple(spec_l) == want_names, 'tolinen.lifted_sharding:linen_control', lambda: dict(case=desc, got=tuple(spec_l)))
+    vb = PB().init(jax.random.key(i), x)
+    ctx.op('nn.vmap(ToLinen, metadata_params)')
+    kb = vb['params']['lin']['kernel']
+    shape = tuple(nn.meta.unbox(kb).shape)
+    ctx.check(shape == ((n, 4, 3) if axis == 0 else (4, n, 3)), 'tolinen.lifted_sharding:stacked_shape', lambda: dict(case=desc, shape=shape))
+    spec_b = nn.get_partition_spec(vb)['params']['lin']['kernel']
+    ctx.check(tuple(spec_b) == want_names, 'tolinen.lifted_sharding:axis_name_not_added',
+              lambda: dict(case=desc, got=tuple(spec_b), want=want_names, value_shape=shape))
+    # apply on the stacked variables (the axis is removed on the way in and added on the way out) returns what the lanes return
+    yb = PB().apply(vb, x)
+    k = np.asarray(nn.meta.unbox(kb))
+    b = np.asarray(nn.meta.unbox(vb['params']['lin']['bias']))
+    want_y = np.stack([np.asarray(x)[j] @ np.take(k, j, axis=axis) + np.take(b, j, axis=min(axis, b.ndim - 1)) for j in range(n)])
+    ctx.check(close(yb, want_y), 'tolinen.lifted_sharding:apply_output', lambda: dict(case=desc))
+
+    # nn.scan over a ToLinen step (layers stacked along axis 0)
+    class Step(nnx.Module):
+      def __init__(self, rngs):
+        self.lin = nnx.Linear(4, 4, use_bias=False, kernel_init=nnx.with_partitioning(nnx.initializers.lecun_normal(), ('in', 'out')), rngs=rngs)
+
+      def __call__(self, c, _):
+        return self.lin(c), None
+
+    class PS(nn.Module):
+      @nn.compact
+      def __call__(self, c):
+        S = nn.scan(bridge.ToLinen, variable_axes={'params': 0}, variable_broadcast='nnx', split_rngs={'params': True}, length=n,
+                    metadata_params={nn.PARTITION_NAME: 'layers'})
+        return S(Step, name='steps')(c, None)[0]
+
+    c0 = jnp.ones((2, 4))
+    ys, vs = PS().init_with_output(jax.random.key(i), c0)
+    ctx.op('nn.scan(ToLinen, metadata_params)')
+    ks = vs['params']['steps']['lin']['kernel']
+    spec_s = nn.get_partition_spec(vs)['params']['steps']['lin']['kernel']
+    ctx.check(tuple(nn.meta.unbox(ks).shape) == (n, 4, 4) and tuple(spec_s) == ('layers', 'in', 'out'), 'tolinen.lifted_sharding:axis_name_not_added',
+              lambda: dict(case=desc, transform='scan', got=tuple(spec_s), shape=tuple(nn.meta.unbox(ks).shape)))
+    ya = PS().apply(vs, c0)
+    h = np.asarray(c0)
+    for j in range(n):
+      h = h @ np.asarray(nn.meta.unbox(ks))[j]
+    ctx.check(close(ya, h) and close(ys, h), 'tolinen.lifted_sharding:apply_output', lambda: dict(case=desc, transform='scan'))
+    spec_after = nn.get_partition_spec(vs)['params']['steps']['lin']['kernel']
+    ctx.check(tuple(spec_after) == ('layers', 'in', 'out'), 'tolinen.lifted_sharding:axis_name_not_added', lambda: dict(case=desc, after='apply'))
+
+
 def run_tonnx_custom_box(ctx, i, rng):
   """A Linen variable boxed in a user-defined AxisMetadata class (public ABC; no from_nnx_metadata): the wrapper keeps the box's own
   fields as Variable metadata and every call returns what Linen apply returns."""
@@ -1554,6 +1633,8 @@ def run(ctx):
     run_tonnx_names(ctx, i, ctx.rng('tonnx.names', i))
   for i in ctx.indices(20 if ctx.tier == 'quick' else 80, 'tolinen.reused'):
     run_tolinen_reused(ctx, i, ctx.rng('tolinen.reused', i))
+  for i in ctx.indices(4 if ctx.tier == 'quick' else 8, 'tolinen.lifted_sharding'):
+    run_tolinen_lifted_sharding(ctx, i, ctx.rng('tolinen.lifted_sharding', i))
   for i in ctx.indices(30 if ctx.tier == 'quick' else 90, 'tolinen.hooked'):
     run_tolinen_hooked(ctx, i, ctx.rng('tolinen.hooked', i))
   for i in ctx.indices(24 if ctx.tier == 'quick' else 96, 'tonnx.in_parent'):
